@@ -31,6 +31,13 @@ def main():
                 tier = k.split(":")[1]
                 bucket = re.sub(r" \(x\d+\)$", "", own[k]["buckets"][0]) if own[k]["buckets"] else "-"
                 break
+        rc = m.get("recheck") or {}
+        if rc.get("exit") == 1:
+            # latest run of the own quick check against this change on /repo's current HEAD
+            tier = "quick"
+            bucket = re.sub(r" \(x\d+\)$", "", rc["buckets"][0]) if rc.get("buckets") else bucket
+        elif "exit" in rc and rc["exit"] != 1 and tier == "quick":
+            tier = "NOT CAUGHT by the latest quick run"
         if m.get("superseded"):
             tier = "superseded (see text)"
             bucket = "-"
